@@ -1,7 +1,7 @@
 (* C20 — reported statistics match the dataset that is actually produced.
    Statements only; proofs live in theories/Stats/ReadableProofs.v. *)
 From Coq Require Import NArith ZArith List Lia.
-From NGS Require Import Val Ints Readable ReadableProofs.
+From NGS Require Import Val Ints Readable ReadableProofs ReadableBeyond.
 Import ListNotations.
 Open Scope N_scope.
 
@@ -32,6 +32,50 @@ Theorem C20_readable_two_digits_and_close : forall c,
     close_to (rn53 c) num den e.
 Proof. exact readable_two_digits_and_close. Qed.
 Print Assumptions C20_readable_two_digits_and_close.
+
+(* ---- at and beyond 2^60 (the property quantifies "to beyond 2^60") ---- *)
+
+(* the six-character bound holds further than the docstring promises: up to
+   999 * 2^60 *)
+Theorem C20_readable_len_to_999Ei : forall c,
+  c <= 999 * 2 ^ 60 -> (length (readable_count c) <= 6)%nat.
+Proof. exact readable_len_ext. Qed.
+Print Assumptions C20_readable_len_to_999Ei.
+
+(* ... and so do the two significant digits and the rounding distance *)
+Theorem C20_readable_two_digits_and_close_to_999Ei : forall c,
+  1000 <= c -> c <= 999 * 2 ^ 60 ->
+  exists num den e,
+    parse_readable (readable_count c) = Some (num, den, e) /\
+    10 <= num /\ (den = 1 \/ den = 10) /\
+    close_to (rn53 c) num den e.
+Proof. exact readable_two_digits_and_close_ext. Qed.
+Print Assumptions C20_readable_two_digits_and_close_to_999Ei.
+
+(* once float(count) / 2^60 rounds to 1000 or more, the text is the
+   thousands-separated integer number of Ei (four or more significant digits)
+   within half a unit of float(count) / 2^60 *)
+Theorem C20_readable_beyond : forall c,
+  1000 <= rhe (rn53 c) (2 ^ 60) ->
+  readable_count c = commas (decimal (rhe (rn53 c) (2 ^ 60))) ++ [32; 69; 105] /\
+  (2 * Z.abs (Z.of_N (rhe (rn53 c) (2 ^ 60) * 2 ^ 60) - Z.of_N (rn53 c)) <= Z.of_N (2 ^ 60))%Z.
+Proof. exact readable_beyond. Qed.
+Print Assumptions C20_readable_beyond.
+
+(* every count from 1000 * 2^60 on is in that regime (no bound above) *)
+Theorem C20_readable_beyond_from : forall c,
+  1000 * 2 ^ 60 <= c -> 1000 <= rhe (rn53 c) (2 ^ 60).
+Proof. exact readable_beyond_from. Qed.
+Print Assumptions C20_readable_beyond_from.
+
+(* the boundary itself: 999.5 Ei is the first count shown with eight
+   characters; 999 Ei and 2^60 still fit in six *)
+Example C20_example_first_long :
+  readable_count (1999 * 2 ^ 59) = [49; 44; 48; 48; 48; 32; 69; 105] /\
+  readable_count (999 * 2 ^ 60) = [57; 57; 57; 32; 69; 105] /\
+  readable_count (2 ^ 60) = [49; 46; 48; 32; 69; 105] /\
+  1000 <= rhe (rn53 (1999 * 2 ^ 59)) (2 ^ 60).
+Proof. exact readable_first_long. Qed.
 
 (* float(count) is exact below 2^53 and has relative error <= 2^-53 above *)
 Theorem C20_float_of_count : forall c,
